@@ -21,6 +21,7 @@ import (
 
 	"github.com/projectcalico/calico/felix/bpf/conntrack/cleanupv1"
 	"github.com/projectcalico/calico/felix/bpf/conntrack/timeouts"
+	ctv4 "github.com/projectcalico/calico/felix/bpf/conntrack/v4"
 	"github.com/projectcalico/calico/felix/bpf/maps"
 	"github.com/projectcalico/calico/felix/timeshim"
 	"github.com/projectcalico/calico/zzverif/ebpf"
@@ -242,6 +243,8 @@ type c14Conn struct {
 	Key     KeyInterface // normal key or reverse (tracking) key
 	FwdKey  KeyInterface // NAT only
 	NAT     bool
+	Flags   uint32 // conntrack flags of the tracking entry (DSR)
+	RST     string // value.rst_seen timestamp: "" = 0, "old" = 10 min before creation, "recent" = last_seen
 }
 
 type c14World struct {
@@ -295,33 +298,51 @@ func (w *c14World) newValue(c *c14Conn, lastSeen time.Duration, fwd bool) []byte
 	est := c14TCPLeg(true, true, false, false)
 	var a, b Leg
 	switch c.Kind {
-	case "tcp-est", "nat-tcp":
+	case "tcp-est", "nat-tcp", "tcp-est-oldrst", "tcp-est-recentrst", "nat-tcp-oldrst":
 		a, b = est, est
-	case "tcp-syn":
+	case "tcp-syn", "tcp-syn-oldrst", "tcp-dsr-syn", "tcp-dsr-oldrst":
 		a, b = c14TCPLeg(true, false, false, false), Leg{}
 	case "tcp-fin":
 		a, b = c14TCPLeg(true, true, true, false), c14TCPLeg(true, true, true, false)
+	case "tcp-onefin", "tcp-dsr-onefin":
+		a, b = c14TCPLeg(true, true, true, false), est
+	case "tcp-fin-rst":
+		a, b = c14TCPLeg(true, true, true, true), c14TCPLeg(true, true, true, false)
 	case "tcp-rst":
 		a, b = c14TCPLeg(true, true, false, true), est
 	default:
 		a, b = Leg{Approved: true, Opener: true}, Leg{Approved: true}
 	}
+	v := w.newValue0(c, lastSeen, fwd, a, b)
+	if !(c.NAT && fwd) {
+		// the RST timestamp lives on the tracking entry (struct calico_ct_value.rst_seen, offset 0)
+		switch c.RST {
+		case "old":
+			binary.LittleEndian.PutUint64(v[0:8], uint64(w.clock.now-10*time.Minute))
+		case "recent":
+			binary.LittleEndian.PutUint64(v[0:8], uint64(lastSeen))
+		}
+	}
+	return v
+}
+
+func (w *c14World) newValue0(c *c14Conn, lastSeen time.Duration, fwd bool, a, b Leg) []byte {
 	if w.ver == 6 {
 		switch {
 		case c.NAT && fwd:
 			return NewValueV6NATForward(lastSeen, 0, c.Key.(KeyV6)).AsBytes()
 		case c.NAT:
-			return NewValueV6NATReverse(lastSeen, 0, a, b, net.IPv4(0, 0, 0, 0), net.IPv4(10, 96, 0, 10), 80).AsBytes()
+			return NewValueV6NATReverse(lastSeen, c.Flags, a, b, net.IPv4(0, 0, 0, 0), net.IPv4(10, 96, 0, 10), 80).AsBytes()
 		}
-		return NewValueV6Normal(lastSeen, 0, a, b).AsBytes()
+		return NewValueV6Normal(lastSeen, c.Flags, a, b).AsBytes()
 	}
 	if c.NAT {
 		if fwd {
 			return NewValueNATForward(lastSeen, 0, c.Key.(Key)).AsBytes()
 		}
-		return NewValueNATReverse(lastSeen, 0, a, b, net.IPv4(0, 0, 0, 0), net.IPv4(10, 96, 0, 10), 80).AsBytes()
+		return NewValueNATReverse(lastSeen, c.Flags, a, b, net.IPv4(0, 0, 0, 0), net.IPv4(10, 96, 0, 10), 80).AsBytes()
 	}
-	return NewValueNormal(lastSeen, 0, a, b).AsBytes()
+	return NewValueNormal(lastSeen, c.Flags, a, b).AsBytes()
 }
 
 func (w *c14World) put(k KeyInterface, v []byte) { w.ct.m.Update(k.AsBytes(), v, 0) }
@@ -469,6 +490,29 @@ func c14NewWorld(ver int, prog *ebpf.Program, qosKey, qosVal int, spec []c14Init
 			c.Timeout, c.Key = w.to.TCPFinsSeen, w.mkKey(ProtoTCP, "10.0.0.1", p, "10.0.0.2", 82)
 		case "tcp-rst":
 			c.Timeout, c.Key = w.to.TCPResetSeen, w.mkKey(ProtoTCP, "10.0.0.1", p, "10.0.0.2", 83)
+		// --- kinds that vary the other inputs of the expiry rules (rst_seen timestamp, per-leg flags, DSR):
+		// expected timeout = the shortest idle time after which the documented rules allow removal
+		case "tcp-est-oldrst": // RST long ago, residual traffic cleared the leg flags: 2 minutes idle
+			c.Timeout, c.RST, c.Key = 2*time.Minute, "old", w.mkKey(ProtoTCP, "10.0.0.1", p, "10.0.0.2", 84)
+		case "tcp-est-recentrst":
+			c.Timeout, c.RST, c.Key = 2*time.Minute, "recent", w.mkKey(ProtoTCP, "10.0.0.1", p, "10.0.0.2", 85)
+		case "tcp-syn-oldrst": // the residual-RST rule is for established/DSR flows only
+			c.Timeout, c.RST, c.Key = w.to.TCPSynSent, "old", w.mkKey(ProtoTCP, "10.0.0.1", p, "10.0.0.2", 86)
+		case "tcp-dsr-syn": // DSR forward node sees one direction only: treated as established
+			c.Timeout, c.Flags, c.Key = w.to.TCPEstablished, ctv4.FlagNATFwdDsr, w.mkKey(ProtoTCP, "10.0.0.1", p, "10.0.0.2", 87)
+		case "tcp-dsr-onefin": // DSR: one FIN is all that can be seen
+			c.Timeout, c.Flags, c.Key = w.to.TCPFinsSeen, ctv4.FlagNATFwdDsr, w.mkKey(ProtoTCP, "10.0.0.1", p, "10.0.0.2", 88)
+		case "tcp-dsr-oldrst":
+			c.Timeout, c.Flags, c.RST, c.Key = 2*time.Minute, ctv4.FlagNATFwdDsr, "old", w.mkKey(ProtoTCP, "10.0.0.1", p, "10.0.0.2", 89)
+		case "tcp-onefin": // half-closed, not DSR: still established
+			c.Timeout, c.Key = w.to.TCPEstablished, w.mkKey(ProtoTCP, "10.0.0.1", p, "10.0.0.2", 90)
+		case "tcp-fin-rst":
+			c.Timeout, c.Key = w.to.TCPFinsSeen, w.mkKey(ProtoTCP, "10.0.0.1", p, "10.0.0.2", 91)
+		case "generic":
+			c.Timeout, c.Key = w.to.GenericTimeout, w.mkKey(132, "10.0.0.1", p, "10.0.0.2", 92)
+		case "nat-tcp-oldrst":
+			c.NAT, c.Timeout, c.RST = true, 2*time.Minute, "old"
+			c.Key, c.FwdKey = w.mkKey(ProtoTCP, "10.0.0.1", p, "10.0.0.9", 8081), w.mkKey(ProtoTCP, "10.0.0.1", p, "10.96.0.10", 81)
 		case "nat-udp":
 			c.NAT, c.Timeout = true, w.to.UDPTimeout
 			c.Key, c.FwdKey = w.mkKey(ProtoUDP, "10.0.0.1", p, "10.0.0.9", 5353), w.mkKey(ProtoUDP, "10.0.0.1", p, "10.96.0.10", 53)
